@@ -40,3 +40,23 @@ pub mod nilu32 {
         }
     }
 }
+
+/// Plain pass-through codec functions, used to attach only *one* of `decode_with` /
+/// `encode_with` to a field (the other direction then goes through the trait impls).
+pub mod plain {
+    use minicbor::decode::{self, Decoder};
+    use minicbor::encode::{self, Encoder, Write};
+
+    pub fn dec_opt_u16<'b, Ctx>(d: &mut Decoder<'b>, ctx: &mut Ctx) -> Result<Option<u16>, decode::Error> {
+        d.decode_with(ctx)
+    }
+
+    pub fn enc_opt_u16<Ctx, W: Write>(v: &Option<u16>, e: &mut Encoder<W>, ctx: &mut Ctx) -> Result<(), encode::Error<W::Error>> {
+        e.encode_with(v, ctx)?;
+        Ok(())
+    }
+
+    pub fn is_nil_opt_u16(v: &Option<u16>) -> bool {
+        v.is_none()
+    }
+}
